@@ -180,12 +180,14 @@ class Ctx:
             self.coverage["samples"].append(sample)
 
     # -- Coq build ----------------------------------------------------------
-    def coq_build(self, timeout=2400):
-        """full .vo build of the whole development; returns True when it succeeded"""
+    def coq_build(self, timeout=2400, targets=None):
+        """full .vo build (never -vos) of Props/<prop>.vo and everything it depends on
+        (plus `targets`); `sh setup.sh` builds the whole development.  Returns True on success."""
         rc, out, err = sh(["sh", os.path.join(COQ, "gen_project.sh")], timeout=120)
         t = time.time()
+        tg = ["Props/%s.vo" % self.prop] + list(targets or [])
         try:
-            rc, out, err = sh(["timeout", str(timeout), "make", "-C", COQ, "-j16"], timeout=timeout + 30)
+            rc, out, err = sh(["timeout", str(timeout), "make", "-C", COQ, "-j16"] + tg, timeout=timeout + 30)
         except subprocess.TimeoutExpired:
             rc, out, err = 124, "", "make timed out"
         self.coverage["coq_build_s"] = round(time.time() - t, 1)
@@ -364,7 +366,7 @@ class Ctx:
         cov["distinct_nontrivial"] = len(self.distinct)
         cov["obligations"] = self.obligations
         cov["discharged"] = self.discharged
-        cov["checker_cmd"] = "make -C /verif/coq -j16 (coqc 8.16.1, full .vo build) + coqc Props/%s.v (Print Assumptions)" % self.prop
+        cov["checker_cmd"] = "make -C /verif/coq -j16 Props/%s.vo (coqc 8.16.1, full .vo build of the dependency closure) + coqc Props/%s.v (Print Assumptions)" % (self.prop, self.prop)
         cov["trusted_base"] = [
             "Coq 8.16.1 kernel (coqc; vm_compute used for case evaluation and finite sweeps; no native_compute)",
             "hand-written Gallina model tied to /repo by the executed correspondence of this run",
@@ -398,10 +400,10 @@ class Ctx:
         return 1 if self.violations else 0
 
 
-def standard_proof_steps(ctx, allowed_axioms=()):
+def standard_proof_steps(ctx, allowed_axioms=(), targets=None):
     """steps 1-2 of every check.  A broken build / lint / assumption is reported as a
     violation without failing input (the property is no longer shown to hold)."""
-    ok = ctx.coq_build()
+    ok = ctx.coq_build(targets=targets)
     if not ok:
         ctx.fail("Coq development does not build", {"theorem": "make -C coq", "log": getattr(ctx, "build_log", "")},
                  found_input=False)
